@@ -16,6 +16,8 @@
 //! disagree, `From<Point> for (f64,f64)`, `PartialEq`, `Default` of Point, `Line::ort`, or the iterator of an
 //! intersection result (reverse order, count, size_hint) is inconsistent with its forward traversal.
 //!   search seed n                 -> OK <counters> | FAIL <what> <harness line of the failing configuration>
+//!     (lattice quarter with exact kinds; real-valued configurations incl. extreme radius ratios, near-tangencies and,
+//!      one in five, a nearly axis-aligned line / centre line with a direction component of 1e-10 .. 1e-4)
 //! A panic prints `P`.
 use rlib_geometry::{
     circle::{Circle, PointPosition},
@@ -206,9 +208,32 @@ fn cl_kind_exact(cx: i128, cy: i128, r: i128, ux: i128, uy: i128, vx: i128, vy: 
     }
 }
 
+/// unit vector that is nearly (not exactly) axial: the small component is log-uniform in 1e-10 .. 1e-4, any signs
+fn near_axis_dir(g: &mut R) -> (f64, f64) {
+    let beta = (10f64).powf(g.range(-10.0, -4.0)) * if g.0.next() % 2 == 0 { 1.0 } else { -1.0 };
+    let big = (1.0 - beta * beta).sqrt() * if g.0.next() % 2 == 0 { 1.0 } else { -1.0 };
+    if g.0.next() % 2 == 0 {
+        (beta, big)
+    } else {
+        (big, beta)
+    }
+}
+/// a second defining point that makes the line through `u` nearly (not exactly) vertical or horizontal; a line used as
+/// the pivot of a back-substitution loses about 1e-13 divided by the small component
+fn near_axis_from(g: &mut R, u: &Point, m: f64) -> Option<Point> {
+    let (dx, dy) = near_axis_dir(g);
+    let len = g.range(0.05 * m, 2.0 * m);
+    let v = Point::new(u.x + dx * len, u.y + dy * len);
+    if v.x.abs() > 1024.0 || v.y.abs() > 1024.0 || v.x == u.x || v.y == u.y {
+        None
+    } else {
+        Some(v)
+    }
+}
+
 fn search(seed: u64, n: u64) -> String {
     let mut g = R(vh::Sm(seed));
-    let (mut n_ll, mut n_cl, mut n_cc, mut n_pts, mut n_lat) = (0u64, 0u64, 0u64, 0u64, 0u64);
+    let (mut n_ll, mut n_cl, mut n_cc, mut n_pts, mut n_lat, mut n_axis) = (0u64, 0u64, 0u64, 0u64, 0u64, 0u64);
     let mut worst: f64 = 0.0;
     for it in 0..n {
         let lattice = it % 4 == 0;
@@ -216,10 +241,20 @@ fn search(seed: u64, n: u64) -> String {
         let coord = |g: &mut R| if lattice { g.int(-20, 20) as f64 } else { g.range(-m, m) };
         match it % 3 {
             0 => {
-                // line-line; defining points well separated, directions not nearly parallel
+                // line-line; defining points well separated, directions not nearly parallel; one configuration in
+                // five (of the real-valued ones) has a nearly axis-aligned line, as first or second argument (likewise
+                // the line of a circle-line pair and the centre line of a circle pair below)
+                let near_axis = !lattice && it % 5 == 1;
                 let (u1, v1, u2, v2) = loop {
                     let u1 = Point::new(coord(&mut g), coord(&mut g));
-                    let v1 = Point::new(coord(&mut g), coord(&mut g));
+                    let v1 = if near_axis {
+                        match near_axis_from(&mut g, &u1, m) {
+                            Some(v) => v,
+                            None => continue,
+                        }
+                    } else {
+                        Point::new(coord(&mut g), coord(&mut g))
+                    };
                     let u2 = Point::new(coord(&mut g), coord(&mut g));
                     let v2 = Point::new(coord(&mut g), coord(&mut g));
                     let (l1, l2) = (hyp(v1.x - u1.x, v1.y - u1.y), hyp(v2.x - u2.x, v2.y - u2.y));
@@ -232,6 +267,11 @@ fn search(seed: u64, n: u64) -> String {
                     }
                     break (u1, v1, u2, v2);
                 };
+                // both argument orders
+                let (u1, v1, u2, v2) = if near_axis && g.0.next() % 2 == 0 { (u2, v2, u1, v1) } else { (u1, v1, u2, v2) };
+                if near_axis {
+                    n_axis += 1;
+                }
                 let line = format!("ll B {} {} B {} {}", pt(&u1), pt(&v1), pt(&u2), pt(&v2));
                 match intersect_ll(&Line::between(&u1, &v1), &Line::between(&u2, &v2)) {
                     None => return format!("FAIL ll-kind-none-for-crossing-lines {}", line),
@@ -247,13 +287,28 @@ fn search(seed: u64, n: u64) -> String {
             1 => {
                 let r = if lattice { g.int(1, 20) as f64 } else { g.range(0.05 * m, m) };
                 let c = Circle::new(Point::new(coord(&mut g), coord(&mut g)), r);
+                let near_axis = !lattice && it % 5 == 2;
                 let (u, v) = loop {
+                    if near_axis {
+                        // a nearly axis-aligned line through a point of the box around the circle
+                        let u = Point::new(c.c.x + g.range(-1.2 * r, 1.2 * r), c.c.y + g.range(-1.2 * r, 1.2 * r));
+                        if u.x.abs() > 1024.0 || u.y.abs() > 1024.0 {
+                            continue;
+                        }
+                        match near_axis_from(&mut g, &u, m) {
+                            Some(v) => break (u, v),
+                            None => continue,
+                        }
+                    }
                     let u = Point::new(coord(&mut g), coord(&mut g));
                     let v = Point::new(coord(&mut g), coord(&mut g));
                     if hyp(v.x - u.x, v.y - u.y) >= 0.05 * m {
                         break (u, v);
                     }
                 };
+                if near_axis {
+                    n_axis += 1;
+                }
                 let line = format!("cl {} {} B {} {}", pt(&c.c), b(c.r), pt(&u), pt(&v));
                 let res = intersect_cl(&c, &Line::between(&u, &v));
                 let kind = match res {
@@ -291,6 +346,7 @@ fn search(seed: u64, n: u64) -> String {
                 let a = Circle::new(Point::new(coord(&mut g), coord(&mut g)), ra);
                 let near = !lattice && it % 5 == 0;
                 let ratio_cross = !lattice && it % 5 == 1;
+                let axis_cross = !lattice && it % 5 == 3;
                 let (a, bc) = if near {
                     // radius ratio log-uniform in 1 .. 1e6 (the small radius stays >= 2^-10), 20 EPS .. 1e4 EPS on
                     // either side of the inner / outer tangency
@@ -315,6 +371,19 @@ fn search(seed: u64, n: u64) -> String {
                             break (Circle::new(ac, ra), Circle::new(bcn, rb));
                         }
                     }
+                } else if axis_cross {
+                    // a clear crossing whose centre line is nearly (not exactly) axis-aligned
+                    let rb = ra * g.range(0.05, 1.0);
+                    let d = (ra - rb) + g.range(0.05, 0.95) * 2.0 * rb;
+                    let (dx, dy) = near_axis_dir(&mut g);
+                    let bcn = Point::new(a.c.x + d * dx, a.c.y + d * dy);
+                    let bcn = if bcn.x.abs().max(bcn.y.abs()) <= 1024.0 {
+                        bcn
+                    } else {
+                        Point::new(a.c.x - d * dx, a.c.y - d * dy)
+                    };
+                    n_axis += 1;
+                    (a, Circle::new(bcn, rb))
                 } else {
                     let rb = if lattice { g.int(1, 20) as f64 } else { g.range(0.05 * m, m) };
                     (a, Circle::new(Point::new(coord(&mut g), coord(&mut g)), rb))
@@ -370,7 +439,10 @@ fn search(seed: u64, n: u64) -> String {
             }
         }
     }
-    format!("OK ll={} cl={} cc={} points={} lattice={} worst_circle_residual={:e}", n_ll, n_cl, n_cc, n_pts, n_lat, worst)
+    format!(
+        "OK ll={} near_axis={} cl={} cc={} points={} lattice={} worst_circle_residual={:e}",
+        n_ll, n_axis, n_cl, n_cc, n_pts, n_lat, worst
+    )
 }
 
 fn main() {
